@@ -1,7 +1,7 @@
 (* C02 - The source is never modified; nothing outside the destination is touched.  Statements only. *)
 From RJ Require Import Base.Prelude Base.OrderedPlan Model.Settings Model.Core Model.Fs Model.Paths Model.Sync Model.SyncTop
   Spec.PlanSpec Spec.Mirror Proofs.FsProofs Proofs.ExecProofs Proofs.DryProofs Proofs.ConfineProofs Proofs.MirrorProofs
-  Proofs.QuietProofs Proofs.ConfinedMain Proofs.InstanceProofs.
+  Proofs.QuietProofs Proofs.ConfinedMain Proofs.InstanceProofs Proofs.BlockProofs.
 
 (* In protocol terms: whatever the arguments, outcome, answers given to prompts or faults met, the
    source-side doer is only ever asked to report its root, list entries and read file contents ... *)
@@ -40,20 +40,37 @@ Theorem C02_dry_run_confined : forall now_z normalize chunker cfg S D ans bits l
   cf_dry cfg = true -> r_dest (sync_one now_z normalize chunker cfg S D ans bits ls ld ft) = D.
 Proof. intros. apply (dry_run_inert now_z normalize chunker cfg S D ans bits ls ld ft H). Qed.
 
-(* Known finding F6b (the full statement "no run ever" is FALSE of the faithful model): when the deletion
-   of a destination symlink FAILS, the creations that were already queued behind it are still
-   performed - through the link.  Witness: the link-delete is answered with an error, the boss notices
-   it one step later. *)
+(* F6b (repaired by a fix: commit): when the deletion of a destination entry FAILS, the commands already
+   queued behind it for that path or anything inside it used to be performed - through the link, if a link
+   was what could not be deleted.  The doer now remembers a failed deletion and refuses them: *)
+Theorem C02_blocked_refused : forall fl st c p,
+  path_cmd c = Some p -> blocked_at st p = true -> doer_exec fl st c = (st, Some ERefused).
+Proof. exact blocked_refused. Qed.
+
+Theorem C02_failed_delete_blocks : forall fl st c p e q,
+  is_del c = true -> path_cmd c = Some p -> snd (doer_exec fl st c) = Some e ->
+  is_prefix p q = true -> blocked_at (fst (doer_exec fl st c)) q = true.
+Proof. exact failed_delete_blocks. Qed.
+
+Theorem C02_blocked_stays : forall fl st c p, blocked_at st p = true -> blocked_at (fst (doer_exec fl st c)) p = true.
+Proof. exact blocked_stays. Qed.
+
+(* The former witness (link-delete answered with an error, the boss notices two steps later): the queued
+   creation of f is now refused, nothing goes through the link, the link is still there. *)
 Definition f6b_S : fs := [ ([], NFolder); ([["f"%char]], NFile (TSet 10) ["x"%char]) ].
 Definition f6b_D : fs := [ ([], NFolder); ([["f"%char]], NLink ["t"%char] SKFile) ].
-Theorem C02_refuted_after_failed_link_delete :
+Example C02_former_witness_contained :
   let r := run_top (mkCfg false Unix (mkB BAct BAct BSkip BAct) BAct false) f6b_S f6b_D AncOk [] [] [] (mkFaults [0] [] 2 None) in
-  r_ok r = false /\ d_events (r_dest r) = [Through [["f"%char]]].
-Proof. vm_compute. split; reflexivity. Qed.
+  r_ok r = false /\ d_events (r_dest r) = [] /\ r_errs r = [EInjected; ERefused] /\
+  fget (d_fs (r_dest r)) [["f"%char]] = Some (NLink ["t"%char] SKFile).
+Proof. vm_compute. repeat split; reflexivity. Qed.
 
 Print Assumptions C02_source_only_read.
 Print Assumptions C02_clean_run_confined.
 Print Assumptions C02_through_needs_link.
+Print Assumptions C02_blocked_refused.
+Print Assumptions C02_failed_delete_blocks.
+Print Assumptions C02_blocked_stays.
 
 (* The one syntactic fact (regenerated on every run from the source text being compiled): the only
    Command kinds boss_sync.rs sends through src_comms are the three read-only ones. *)
